@@ -364,8 +364,9 @@ func main() {
 	var mixed chan func(*res.Result)
 	if *withCluster && *replay == "" {
 		go func() { prep <- prepareCluster() }()
-		mixed = make(chan func(*res.Result), 1)
+		mixed = make(chan func(*res.Result), 2)
 		go func() { mixed <- mixedFlagPhase() }()
+		go func() { mixed <- firstDCPhase() }()
 	}
 	cfg, err := srv15.Config()
 	if err != nil {
@@ -498,6 +499,7 @@ func main() {
 		w.leaderless(R)
 		if *withCluster {
 			clusterPhase(R, <-prep)
+			(<-mixed)(R)
 			(<-mixed)(R)
 		}
 	}
